@@ -65,6 +65,50 @@ func main() {
 			e.Strs("sortedDocsReturns", last, "writeSortedDocs: the successful return statement")
 		}
 
+		// sealed_loader.go: shape of the section loops (probe until the empty separator header)
+		if f, err := r.Load("frac/sealed_loader.go"); err != nil {
+			e.Missing("loaderLoops", err)
+		} else {
+			var loops []string
+			for _, fn := range []string{"loadIDs", "skipTokens", "loadLIDsBlocksTable"} {
+				fd := f.Func("Loader", fn)
+				if fd == nil {
+					e.Missing("loaderLoops", fn+" not found")
+					continue
+				}
+				ast.Inspect(fd.Body, func(n ast.Node) bool {
+					x, ok := n.(*ast.ForStmt)
+					if !ok {
+						return true
+					}
+					shape := "for{}"
+					if x.Cond != nil || x.Init != nil || x.Post != nil {
+						shape = "for " + f.Render(x.Cond)
+						if x.Init != nil {
+							shape = "for " + f.Render(x.Init) + "; " + f.Render(x.Cond)
+						}
+					}
+					var br []string
+					ast.Inspect(x.Body, func(m ast.Node) bool {
+						if is, ok := m.(*ast.IfStmt); ok {
+							for _, st := range is.Body.List {
+								if b, ok := st.(*ast.BranchStmt); ok && b.Tok == token.BREAK {
+									br = append(br, f.Render(is.Cond))
+								}
+							}
+						}
+						return true
+					})
+					if strings.Contains(shape, "len(result)") { // the varint loop over the positions block
+						return true
+					}
+					loops = append(loops, fn+": "+shape+" break if "+strings.Join(br, " || "))
+					return true
+				})
+			}
+			e.Strs("loaderLoops", loops, "Loader.loadIDs / skipTokens / loadLIDsBlocksTable: loop shapes over the block registry")
+		}
+
 		// disk/docs_reader.go: the key under which a doc block is cached
 		if f, err := r.Load("disk/docs_reader.go"); err != nil {
 			e.Missing("docsCacheKeyExpr", err)
